@@ -47,6 +47,15 @@ T5S = 5 * vtty.TICK_HZ
 T62MS = 256
 
 
+def hang_signature(op: str, kind: str) -> str:
+    """'...falls back to the documented defaults within the timeout instead of blocking'"""
+    return f"{op}:no-fallback:" + ("still-waiting-after-timeout" if kind == "StillWaiting" else "blocks-forever")
+
+
+def no_fallback_seen(rep: Report) -> int:
+    return sum(":no-fallback:" in v.signature for v in rep.violations)
+
+
 def signature(op: str, verdict: str) -> str:
     if verdict.startswith("parse:colour:"):
         return "x_parse_color:" + verdict.split(":", 2)[2]
@@ -95,12 +104,15 @@ def replay_scn(rep: Report, scn: dict, origin: str):
                       f"{scn['op']} raised {f['kind']} on the virtual tty\n{f['traceback']}",
                       {"kind": "vtty", "scn": scn})
         return run, False
+    if f["status"] == "hung":
+        rep.violation(hang_signature(scn["op"], f["kind"]),
+                      f"{origin}, virtual tty, query timeout {scn['tmo']} ticks: {f['hang']}; "
+                      f"{len(run['events'])} system calls so far, last {[e['call'] for e in run['events'][-6:]]}; "
+                      f"supported {scn['term']['sup']}; schedule {json.dumps(scn['sched'])[:300]}",
+                      {"kind": "vtty", "scn": scn})
+        return run, False
     if "exp" in scn:
         diffs = compare(scn, run)
-        if f["status"] == "hung":
-            rep.violation(f"{scn['op']}:c12:blocks-forever", f"{f['hang']}; schedule {json.dumps(scn['sched'])}",
-                          {"kind": "vtty", "scn": scn})
-            return run, False
         if diffs:
             d = diffs[0]
             rep.violation(
@@ -233,13 +245,23 @@ def pty_scenarios(rng: random.Random, tier: str) -> list[tuple[dict, list]]:
 def run_pty(rep: Report, session: termsim.PtySession, scn: dict, bursts: list) -> dict | None:
     good = bool(scn["win"]["xpx"] and scn["win"]["ypx"])
     reqs = [K.request_bytes(qs) for qs in K.writes_of(scn["op"], scn["term"], scn["enabled"], good)]
+    replay = {"kind": "pty", "scn": scn, "bursts": [[(d, list(x)) for d, x in b] for b in bursts]}
     try:
-        res = session.run(scn, requests=reqs, bursts=bursts, slack=SLACK)
+        # a silence is retried once (this process may have stalled) unless the deterministic
+        # virtual runs have already shown that the code does not fall back
+        res = session.run(scn, requests=reqs, bursts=bursts, slack=SLACK, retry_silence=not no_fallback_seen(rep))
     except termsim.NoReturn as e:
-        rep.violation(f"{scn['op']}:pty:no-return", f"the call did not return within 15 s on a real pty ({e})",
-                      {"kind": "pty", "scn": scn, "bursts": [[(d, list(x)) for d, x in b] for b in bursts]})
+        rep.violation(hang_signature(scn["op"], "StillWaiting"),
+                      f"real pty, query timeout {scn['tmo'] / vtty.TICK_HZ:g} s: the call did not return within 15 s "
+                      f"({e}); the worker was killed; supported {scn['term']['sup']}", replay)
         return None
     rep.evaluations += 1
+    if res["final"]["status"] == "hung":
+        rep.violation(hang_signature(scn["op"], res["final"]["kind"]),
+                      f"real pty, query timeout {scn['tmo'] / vtty.TICK_HZ:g} s: {res['final']['hang']} after "
+                      f"{res['final']['elapsed'] / vtty.TICK_HZ:.2f} s and {len(res['events'])} system calls, last "
+                      f"{[e['call'] for e in res['events'][-6:]]}; supported {scn['term']['sup']}", replay)
+        return None
     if "traceback" in res["final"]:
         rep.violation(f"{scn['op']}:raises:{res['final']['kind']}", res["final"]["traceback"],
                       {"kind": "pty", "scn": scn, "bursts": [[(d, list(x)) for d, x in b] for b in bursts]})
@@ -338,9 +360,6 @@ def main(rep: Report, replay: dict | None) -> None:
         if not ok:
             continue
         f = run["final"]
-        if f["status"] == "hung":
-            rep.violation(f"{scn['op']}:c12:blocks-forever", f["hang"], {"kind": "grid", "scn": scn})
-            continue
         rep.distinct.add(("grid", scn["op"], json.dumps(scn["term"], sort_keys=True), json.dumps(scn["win"]), scn["swap"]))
         if i % (80 if quick else 10) == 0:
             traces.append(K.make_trace("virtual", scn, run, c12=True))
@@ -359,6 +378,11 @@ def main(rep: Report, replay: dict | None) -> None:
     n_pty = 0
     try:
         for scn, bursts in pty_scenarios(rng, rep.tier):
+            if no_fallback_seen(rep) >= 6 and "da1" not in scn["term"]["sup"]:
+                # the code has been shown not to fall back; every further silent terminal would
+                # cost a watchdog period for the same verdict
+                rep.extra["pty_silent_skipped_after_no_fallback"] = rep.extra.get("pty_silent_skipped_after_no_fallback", 0) + 1
+                continue
             res = run_pty(rep, session, scn, bursts)
             if res is None:
                 continue
